@@ -186,7 +186,7 @@ func (w *c17world) accOp(tk []string) (string, bool) {
 			local = c17addrKey(la)
 		}
 		if err != nil {
-			cs.Fail("harness", "raw connection: "+err.Error())
+			w.incon = "raw connection: " + err.Error()
 			return "harness-error", true
 		}
 		rc = &c17raw{idx: c, conn: conn, closed: make(chan struct{}), parked: make(chan string), release: make(chan struct{}, 4), exited: make(chan struct{}),
@@ -214,7 +214,7 @@ func (w *c17world) accOp(tk []string) (string, bool) {
 		rc.okAtCheck = w.refValid(k)
 		rc.either = w.pend != nil && w.refValidAfter(k) != rc.okAtCheck
 		if _, err := rc.conn.Send(w.ident(k, f, network.NewTCPAddress("127.0.0.1:1"))); err != nil {
-			cs.Fail("harness", "writing the identity: "+err.Error())
+			w.incon = "writing the identity: " + err.Error()
 			return "harness-error", true
 		}
 		obs := "?"
